@@ -28,12 +28,13 @@ type c15Op struct {
 }
 
 type c15Spec struct {
-	pkt     int // client packet size and server maximum payload (0: 2 bytes / default): reads and writes of that size are single-packet operations
-	partial int // the store's first reads deliver half and a transient error (those reads may fail; the rest must still be linearizable)
-	server  string
-	alloc   bool
-	handles int
-	callers [][]c15Op
+	finalRead bool // the history ends with a read of the whole file after every caller has returned
+	pkt       int  // client packet size and server maximum payload (0: 2 bytes / default): reads and writes of that size are single-packet operations
+	partial   int  // the store's first reads deliver half and a transient error (those reads may fail; the rest must still be linearizable)
+	server    string
+	alloc     bool
+	handles   int
+	callers   [][]c15Op
 }
 
 const c15Init = "wxyz"
@@ -186,6 +187,19 @@ func c15Scenario(s c15Spec) explore.Scenario {
 			for _, r := range results {
 				hist = append(hist, r...)
 			}
+			// when all callers have returned the whole file is read once more: the final content must be the one the
+			// chosen linearisation leaves behind (writes have no result of their own that could betray a lost update)
+			if s.finalRead {
+				b := make([]byte, 8)
+				op := lin.Op{Client: len(s.callers), Kind: "read", Off: 0, N: len(b), Call: int64(2*vsched.StepNo() + 1)}
+				n, err := files[len(files)-1].ReadAt(b, 0)
+				if err != nil && err != io.EOF {
+					bad = append(bad, "final ReadAt: "+err.Error())
+				}
+				op.Data = string(b[:n])
+				op.Return = int64(2*vsched.StepNo() + 2)
+				hist = append(hist, op)
+			}
 			closeErr = c.Close()
 		}
 		judge := func(e *vsched.Exec) explore.Verdict {
@@ -269,9 +283,11 @@ func c15Specs(set, server string, alloc bool) []c15Spec {
 	case "pos": // operations at the File's own position, issued by goroutines that share the File
 		pr := func(h int) c15Op { return c15Op{kind: "pread", handle: h} }
 		pw := func(d string, h int) c15Op { return c15Op{kind: "pwrite", data: d, handle: h} }
+		b := mk(1, []c15Op{pw("ab", 0)}, []c15Op{pw("cd", 0)})
+		b.finalRead = true // two Writes at the shared position: only the final content shows whether both landed
 		return []c15Spec{
 			mk(1, []c15Op{pr(0)}, []c15Op{pr(0)}),
-			mk(1, []c15Op{pw("ab", 0)}, []c15Op{pw("cd", 0)}, []c15Op{sz(0)}),
+			b,
 			mk(2, []c15Op{pr(0), r(2, 1)}, []c15Op{pw("ab", 0), pr(1)}),
 		}
 	case "2x1":
